@@ -285,9 +285,12 @@ def check_converge(case):
                     elif t == "genable":
                         toggles += 1
                         dd = op["d"] % len(specs)
+                        groups_ = list(drivers.effective_groups(specs[dd]).values())
+                        toggled_attr = groups_[op["g"] % len(groups_)]["attr"]
                         for gg, vv in dep.vectors[dd]:
-                            redef_pending.add((dd, vv["name"]))
-                            state_race.discard((dd, vv["name"]))
+                            redef_pending.add((dd, vv["name"]))  # (over-approximation: only the group's own vectors are re-defined)
+                            if gg["attr"] == toggled_attr:
+                                state_race.discard((dd, vv["name"]))  # a real re-definition carries the current state
                             for e in vv["elements"]:
                                 fresh[(dd, vv["name"], e["name"])] = False
                     elif v["kind"] == "BLOB" and (t in ("assign", "set_value") or (t == "republish" and lab != "noop")):
